@@ -8,6 +8,7 @@ from typing import TYPE_CHECKING, Any, Awaitable, Callable, NoReturn
 from repid._asyncify import asyncify
 from repid._utils import _NoAction
 from repid.dependencies.protocols import DependencyKind
+from repid.logger import logger
 from repid.message import Message
 
 if TYPE_CHECKING:
@@ -129,7 +130,13 @@ class MessageDependency(Message):
 
     async def __execute_callbacks(self) -> None:
         self.__lazy_result_callback()
-        [await c() for c in self._callbacks]  # execute in order
+        for c in self._callbacks:  # execute in order
+            try:
+                await c()
+            except Exception:  # noqa: BLE001
+                # the broker has been answered already: a failing callback (e.g. the result
+                # store) must not turn into a failed execution and a second disposition
+                logger.exception("Callback raised an exception after the message was answered.")
 
     async def ack(self) -> NoReturn:
         await super().ack()
